@@ -4,10 +4,12 @@ import PsVerif.Proofs.MkCert
 namespace PsVerif.Findings.C07
 open PsVerif.Gen PsVerif.Model.Abs PsVerif.Model.AbsMk PsVerif.Proofs.MkCert
 
-def crashy : Env := { trackAgreement := false, crashInBroadcast := true, scriptFails := false, policyFails := false }
+def crashy : Env := { trackAgreement := false, crashInBroadcast := true, errorAfterBroadcast := false, scriptFails := false, policyFails := false }
+/-- the code before the fix "do not repeat a failed opening broadcast on recovery" -/
+def crashyOld : Env := { crashy with retryFailedOpening := true }
 
 def w_norecord := findPath (sysOut crashy) (fun m => !recorded m) 60
-def w_second := findPath (sysIn crashy) (fun m => !oneOpening m) 60
+def w_second := findPath (sysIn crashyOld) (fun m => !oneOpening m) 60
 
 /-- an opening transaction is on the chain while the record does not contain it -/
 theorem C07_violated_crash_after_broadcast : ∃ m, Reach (sysOut crashy) m ∧ recorded m = false := by
@@ -19,9 +21,11 @@ theorem C07_violated_crash_after_broadcast : ∃ m, Reach (sysOut crashy) m ∧ 
     simp [hl] at hb
     exact ⟨m, reach_of_validPath _ _ hv m (List.mem_of_getLast? hl), hb⟩
 
-/-- two opening transactions for one swap (C15) -/
-theorem C15_violated_second_opening : ∃ m, Reach (sysIn crashy) m ∧ oneOpening m = false := by
-  have hv : validPath (sysIn crashy) w_second = true := by decide +kernel
+/-- two opening transactions for one swap (C15) in the code before the fix: a failed attempt, the process
+    dies with the broadcast-opening state stored, the recovery repeats the attempt and dies between the
+    broadcast and the persist, the next recovery broadcasts again -/
+theorem C15_violated_second_opening_before_fix : ∃ m, Reach (sysIn crashyOld) m ∧ oneOpening m = false := by
+  have hv : validPath (sysIn crashyOld) w_second = true := by decide +kernel
   have hb : (w_second.getLast?.map fun m => !oneOpening m) = some true := by decide +kernel
   cases hl : w_second.getLast? with
   | none => simp [hl] at hb
